@@ -182,3 +182,13 @@ Proof. exact (@Tie.tie_dtostre_buf). Qed.
 End T_tie_dtostre_buf.
 Definition C16_tie_dtostre_buf := @T_tie_dtostre_buf.C16_tie_dtostre_buf.
 
+Module T_dtostre_zero. Import DtostreLayout. Local Open Scope bool_scope. Local Open Scope Z_scope.
+Import GFmt NumDecode NumSyntax GFmtSpec ILog RtFloat Dtostre DtostreSpec DtostreCases1 DtostreCases2 DtostreCases3. Local Open Scope Z_scope.
+Local Open Scope Z_scope.
+Theorem C16_dtostre_zero :
+  forall P neg,
+  1 <= P <= 15 -> layout (repeat 48 (Z.to_nat P)) 0 P neg = ((if neg then [45] else []) ++ [48], false).
+Proof. exact (@DtostreLayout.dtostre_zero). Qed.
+End T_dtostre_zero.
+Definition C16_dtostre_zero := @T_dtostre_zero.C16_dtostre_zero.
+
